@@ -1,4 +1,5 @@
 import Wx.Glob.ThrottleRun
+import Wx.Cli.TimeSpanThm
 /-! # C02 — Debounce: one action per window, never before the window has elapsed
 
 > A batch made only of non-urgent events is handed to the action handler no earlier than the configured throttle
@@ -35,5 +36,15 @@ theorem urgent_flushes_immediately (s : TS) (t : Turn) (e : Ev) (hr : t.recv = .
     can postpone the batch by at most the one `recv` that was in flight when the window ended -/
 theorem no_starvation (s : TS) (t : Turn) (hne : s.set ≠ []) (hd : t.throttle1 ≤ t.clock1 - s.last) :
     (turn s t).batch = some (s.set, t.clock1, s.last) ∧ (turn s t).received = [] := turn_window_over s t hne hd
+
+/-- **the configured throttle duration, as the command line gives it**: `--debounce` (and `--poll`) without a unit are MILLISECONDS,
+    `--stop-timeout` / `--delay-run` seconds — for every digit string below 2^64 … -/
+theorem debounce_without_unit_is_milliseconds (ds : List Char) (hne : ds ≠ []) (hd : ds.all Ca.Ts.isDigit = true) (hlt : Ca.Ts.valOf ds < 2 ^ 64) :
+    Ca.Ts.parseSpan Ca.Ts.msMult ds = some (Ca.Ts.valOf ds * 1000000) := Ca.Ts.unitless_is_scaled Ca.Ts.msMult ds hne hd hlt
+
+/-- … and a unit is taken as written whatever the option's default (`500ms`, `2s`, `1min`, …: every unit of the table) -/
+theorem a_unit_overrides_the_options_default (mult : Nat) (ds : List Char) (u : String) (ns : Nat) (hne : ds ≠ []) (hd : ds.all Ca.Ts.isDigit = true)
+    (hlt : Ca.Ts.valOf ds < 2 ^ 64) (hu : Ca.Ts.unitNs u = some ns) (c : Char) (r : List Char) (hul : u.toList = c :: r) (hc : Ca.Ts.isDigit c = false) :
+    Ca.Ts.parseSpan mult (ds ++ u.toList) = some (Ca.Ts.valOf ds * ns) := Ca.Ts.unit_is_respected mult ds u ns hne hd hlt hu c r hul hc
 
 end Props.C02
